@@ -45,7 +45,12 @@ func c08Ops() []c08Op {
 	return ops
 }
 
+func c08ArenaIntact() bool { return c08ArenaBuf == nil || bytes.Equal(c08ArenaBuf, c08ArenaOrig) }
+
 func c08Fresh(prfIdx, pat int) (*security.IKESAKey, []byte) {
+	if !c08UseRefill {
+		c08ArenaReset()
+	}
 	cs := c07Case{PRF: prfIdx, Integ: 1, Encr: 0, DH: 1}
 	sa := infoSA(cs)
 	nonce := univ.Pat(48, pat)
@@ -56,6 +61,9 @@ func c08Fresh(prfIdx, pat int) (*security.IKESAKey, []byte) {
 	want := ref.DeriveIKE(ref.PRFs[prfIdx], ref.Integs[1], 16, nonce, secret, 7, 9)
 	return sa, want.SKd
 }
+
+// c08UseRefill selects the second caller model (one buffer per length, refilled in place before every call).
+var c08UseRefill bool
 
 // callerBuf models a caller that keeps one nonce buffer per length and refills it in place for every
 // derivation (the library must not remember the caller's slice across calls).
@@ -74,8 +82,54 @@ func inCallerBuffer(nonce []byte) []byte {
 	return b
 }
 
+// c08Arena models a caller that keeps all its nonces next to each other in one buffer (as in a received
+// datagram) and hands windows of it to the library: window i has spare capacity reaching over the following
+// nonces. The arena is written once; the library must not write to it.
+var c08ArenaBuf []byte
+var c08ArenaOrig []byte
+var c08ArenaOff = map[string]int{}
+
+func c08ArenaReset() {
+	c08ArenaBuf = c08ArenaBuf[:0]
+	for _, op := range c08Ops() {
+		k := string(op.nonce)
+		if _, ok := c08ArenaOff[k]; ok && len(c08ArenaBuf) > 0 {
+			continue
+		}
+	}
+	c08ArenaBuf = nil
+	c08ArenaOff = map[string]int{}
+	for _, op := range c08Ops() {
+		k := string(op.nonce)
+		if _, ok := c08ArenaOff[k]; ok || len(op.nonce) == 0 {
+			continue
+		}
+		c08ArenaOff[k] = len(c08ArenaBuf)
+		c08ArenaBuf = append(c08ArenaBuf, op.nonce...)
+	}
+	c08ArenaBuf = append(c08ArenaBuf, 0xEE, 0xEE, 0xEE, 0xEE) // sentinel tail
+	c08ArenaOrig = append([]byte(nil), c08ArenaBuf...)
+}
+
+func c08Window(nonce []byte) []byte {
+	if len(nonce) == 0 {
+		return nonce
+	}
+	if c08ArenaBuf == nil {
+		c08ArenaReset()
+	}
+	off, ok := c08ArenaOff[string(nonce)]
+	if !ok {
+		return inCallerBuffer(nonce)
+	}
+	return c08ArenaBuf[off : off+len(nonce)] // capacity extends over the following nonces
+}
+
 func c08Apply(sa *security.IKESAKey, op c08Op) (string, error) {
-	nonce := inCallerBuffer(op.nonce)
+	nonce := c08Window(op.nonce)
+	if c08UseRefill {
+		nonce = inCallerBuffer(op.nonce)
+	}
 	ch := &security.ChildSAKey{EncrKInfo: encr.StrToKType(univ.EncrName(op.encrLen))}
 	if op.integIdx >= 0 {
 		ch.IntegKInfo = integ.StrToKType(univ.IntegName(ref.Integs[op.integIdx]))
@@ -113,6 +167,19 @@ func init() {
 		Replay: func(c *engine.Ctx, raw json.RawMessage) {
 			var cs c08Case
 			unmarshalCase(raw, &cs)
+			if cs.Op < 0 {
+				sa, skd := c08Fresh(cs.PRF, 1)
+				op := c08Op{encrLen: cs.Hist[0], integIdx: cs.Hist[1], nonce: univ.Pat(cs.Depth, cs.Depth+cs.PRF), name: "sweep"}
+				c08UseRefill = true
+				got, err := c08Apply(sa, op)
+				c08UseRefill = false
+				if err != nil || got != c08Want(cs.PRF, skd, op) {
+					c.Violate("keymat/nonce-length-sweep", "replayed", cs)
+				}
+				return
+			}
+			c08UseRefill = cs.Pat != 1
+			defer func() { c08UseRefill = false }()
 			ops := c08Ops()
 			sa, skd := c08Fresh(cs.PRF, cs.Pat)
 			for _, h := range cs.Hist {
@@ -135,6 +202,10 @@ func c08Check(c *engine.Ctx, cs c08Case, sa *security.IKESAKey, skd []byte, ops 
 		c.Violate("derive-error", fmt.Sprintf("%s after %d derivations: %v", op.name, len(cs.Hist), err), cs)
 		return
 	}
+	if !c08ArenaIntact() {
+		c.Violate("caller-memory-modified", fmt.Sprintf("%s (after history %v): the library wrote into the caller's nonce buffer beyond or inside the slice it was given", op.name, cs.Hist), cs)
+		return
+	}
 	want := c08Want(cs.PRF, skd, op)
 	fresh, _ := c08Fresh(cs.PRF, cs.Pat)
 	fgot, _ := c08Apply(fresh, op)
@@ -154,16 +225,44 @@ func c08Check(c *engine.Ctx, cs c08Case, sa *security.IKESAKey, skd []byte, ops 
 	}
 }
 
+// c08Sweep: every nonce length 0..300 from a fresh SA, all PRFs, four ESP configurations.
+func c08Sweep(c *engine.Ctx) {
+	for prfIdx := 0; prfIdx < 3; prfIdx++ {
+		for n := 0; n <= 300; n++ {
+			if !c.Mine() {
+				continue
+			}
+			for _, cfg := range [][2]int{{16, -1}, {32, 2}, {24, 0}, {16, 1}} {
+				c.Evals++
+				c.Transitions++
+				sa, skd := c08Fresh(prfIdx, 1)
+				op := c08Op{encrLen: cfg[0], integIdx: cfg[1], nonce: univ.Pat(n, n+prfIdx), name: fmt.Sprintf("derive(aes%d,integ%d,nonce %d octets)", cfg[0]*8, cfg[1], n)}
+				c08UseRefill = true
+				got, err := c08Apply(sa, op)
+				c08UseRefill = false
+				if err != nil || got != c08Want(prfIdx, skd, op) {
+					c.Violate("keymat/nonce-length-sweep", fmt.Sprintf("prf %s, %s from a fresh SA: got %s (err %v), RFC 7296 2.17 gives %s", ref.PRFs[prfIdx].Digest, op.name, trs(got), err, trs(c08Want(prfIdx, skd, op))),
+						c08Case{PRF: prfIdx, Pat: 1, Op: -1, Depth: n, Hist: []int{cfg[0], cfg[1]}})
+					return
+				}
+				c.DistinctS("sweep" + got)
+			}
+		}
+	}
+}
+
 func runC08(c *engine.Ctx) {
+	c08Sweep(c)
 	ops := c08Ops()
 	if err := engine.SnapshotSelfTest(); err != nil {
 		panic(err)
 	}
 	for prfIdx := 0; prfIdx < 3; prfIdx++ {
-		for _, pat := range []int{1, 2 + int(c.Seed%5)} {
+		for pi, pat := range []int{1, 2 + int(c.Seed%5)} {
 			if !c.Mine() {
 				continue
 			}
+			c08UseRefill = pi == 1 // caller model: adjacent windows of one arena / one buffer per length refilled in place
 			var skd []byte
 			sops := make([]engine.SSOp, len(ops))
 			for i := range ops {
@@ -186,7 +285,7 @@ func runC08(c *engine.Ctx) {
 					c.Evals++
 					cs := c08Case{PRF: prfIdx, Pat: pat, Hist: hist, Op: oi, Depth: len(hist)}
 					want := c08Want(prfIdx, skd, ops[oi])
-					if outcome != want {
+					if outcome != want || !c08ArenaIntact() {
 						// re-run through the checking path to classify and record
 						sa, _ := c08Fresh(prfIdx, pat)
 						for _, h := range hist {
